@@ -1,5 +1,5 @@
-From OAS Require Import Model.Boxing.
+From OAS Require Import Model.Boxing Model.Dedup.
 Require Extraction.
 Require Import ExtrOcamlBasic ExtrOcamlString.
 Extraction Blacklist String List Nat.
-Extraction "Extract/c07_model.ml" deps reach.
+Extraction "Extract/c07_model.ml" deps reach canonical doomed.
